@@ -198,6 +198,9 @@ func init() {
 		return slot
 	})
 	doCall := func(ex *exec, fr *frame, client *value, method value, args value, reply value) value {
+		if r, ok := ex.dialedCall(fr, client, method, args, reply); ok {
+			return r
+		}
 		peer, ok := ex.rpcPeers[client]
 		if !ok {
 			if client == nil {
@@ -243,11 +246,30 @@ func init() {
 	reg("(*"+rpc+".Client).CallWithContext", func(ex *exec, fr *frame, fn *ssa.Function, a []value) value {
 		return doCall(ex, fr, a[0].(*value), a[2], a[3], a[4])
 	})
-	reg("(*"+rpc+".Client).Close", func(ex *exec, fr *frame, fn *ssa.Function, a []value) value { return iface{} })
-	reg("(*"+rpc+".Client).Handle", func(ex *exec, fr *frame, fn *ssa.Function, a []value) value { return nil })
+	reg("(*"+rpc+".Client).Close", func(ex *exec, fr *frame, fn *ssa.Function, a []value) value {
+		if c, ok := a[0].(*value); ok {
+			if dc, ok := ex.dialed[c]; ok {
+				ex.closeDialed(dc)
+			}
+		}
+		return iface{}
+	})
+	reg("(*"+rpc+".Client).Handle", func(ex *exec, fr *frame, fn *ssa.Function, a []value) value {
+		if c, ok := a[0].(*value); ok {
+			if dc, ok := ex.dialed[c]; ok {
+				dc.handlers[concreteString(a[1], "rpc method")] = a[2].(iface).v
+			}
+		}
+		return nil
+	})
 	reg("(*"+rpc+".Client).SetBlocking", func(ex *exec, fr *frame, fn *ssa.Function, a []value) value { return nil })
 	reg("(*"+rpc+".Client).Run", func(ex *exec, fr *frame, fn *ssa.Function, a []value) value { return nil })
 	reg("(*"+rpc+".Client).DisconnectNotify", func(ex *exec, fr *frame, fn *ssa.Function, a []value) value {
+		if c, ok := a[0].(*value); ok {
+			if dc, ok := ex.dialed[c]; ok {
+				return dc.disc
+			}
+		}
 		return &gochan{cap: 0, elemT: types.NewStruct(nil, nil)}
 	})
 	reg(rpc+".NewServer", returnZero)
